@@ -236,6 +236,13 @@ def compare_world(rec, mjm, cw, cm, xpos, xmat, world, multiccd=True, nativeccd=
         a1 = np.asarray(xmat[key[0]]).reshape(3, 3)[:, 2]
         a2 = np.asarray(xmat[key[1]]).reshape(3, 3)[:, 2]
         degenerate |= np.linalg.norm(np.cross(a1, a2)) < 1e-3
+    if tkey == ("plane", "cylinder"):
+      # cylinder axis along the plane normal: the rim points are chosen along the (numerically arbitrary) direction of a
+      # vanishing vector - MuJoCo normalises float64 noise, MJWarp falls back to the x axis below 1e-6
+      ip, ic = (key[0], key[1]) if int(mjm.geom_type[key[0]]) == 0 else (key[1], key[0])
+      npl = np.asarray(xmat[ip]).reshape(3, 3)[:, 2]
+      acy = np.asarray(xmat[ic]).reshape(3, 3)[:, 2]
+      degenerate |= np.linalg.norm(np.cross(npl, acy)) < 1e-3
     if degenerate:
       rec.boundary_skipped += 1
     for a, b in match:
